@@ -92,11 +92,18 @@ class Exhaust:
                 continue
             if not dty.startswith('std::result::Result<'):
                 continue
-            nb = b.blocks[t['target']]
+            nxt = t['target']
+            for _ in range(6):
+                nb = b.blocks[nxt]
+                if nb['term']['k'] == 'goto' and not any(st['k'] == 'assign' for st in nb['stmts']):
+                    nxt = nb['term']['target']      # the `return` of a spliced helper
+                else:
+                    break
+            nb = b.blocks[nxt]
             nt = nb['term']
             at = bi
             if nt['k'] == 'call' and re.search(r'as std::ops::Try>::branch$', callee_name(nt) or '') and nt['args'] and (op_place(nt['args'][0]) or {}).get('l') == t['dest']['l']:
-                at = t['target']
+                at = nxt
             r = discr_switch_after_call(b, at)
             if r and 0 in r[1]:
                 facts[(r[0], r[1][0])] = True
